@@ -63,6 +63,12 @@ var c19Files = map[string]string{
 	"hugert.twig":  "{{ huge }}{{ huge }}{{ nofunc() }}",
 	"hugeok.twig":  "{{ huge }}{{ huge }}",
 	"hugeinc.twig": "{{ huge }}{% include 'nofile.twig' %}",
+	// loops and membership tests that stop before the last element (a failure in the body, a match)
+	"forrt.twig":     "{% for i in [1, 2, 3] %}{{ i|nosuchfilter }}{% endfor %}",
+	"forrtmap.twig":  "{% for k, v in {'a': 1, 'b': 2, 'c': 3} %}{{ nofunc() }}{% endfor %}",
+	"forinc.twig":    "{% for i in z %}{% include 'nofile.twig' %}{% endfor %}",
+	"inmatch.twig":   "{% if 1 in z %}y{% endif %}{{ 2 in [1, 2, 3] ? 'a' : 'b' }}{{ 'a' in {'k': 'a', 'j': 'b'} ? 1 : 0 }}{{ 9 not in [9, 8, 7] ? 1 : 0 }}",
+	"fornested.twig": "{% for i in [1, 2] %}{% for j in [1, 2, 3] %}{% if j in [1, 2, 3] %}{{ j }}{% endif %}{% endfor %}{% endfor %}{% for q in 1..5 %}{{ q|nosuchfilter }}{% endfor %}",
 	// reached through symbolic links (created by the setup below)
 	"inclink.twig": "a{% include 'link.twig' %}{% include 'linkbad.twig' %}b",
 }
